@@ -168,9 +168,35 @@ def r4_3(ctx, rc):
     rets = [n.value.id for n in ast.walk(L.node)
             if isinstance(n, ast.Return) and isinstance(n.value, ast.Name)]
     apps = [x for x in sg.nodes if _append_target(x) in rets]
-    if not apps:
-        raise AnalysisError('list_dir appends nothing to its result')
     overlay = L.params[-1]
+    if not apps:
+        # comprehension form: [name for name in <superset> if exists(...)]
+        comps = [n for n in ast.walk(L.node)
+                 if isinstance(n, (ast.ListComp, ast.GeneratorExp))]
+        key = 'list_dir: appended names exist virtually'
+        ok = False
+        for c in comps:
+            for t in c.generators[0].ifs:
+                for call in ast.walk(t):
+                    if _kernel_call(ctx, call, L, ('exists',)) and \
+                            len(call.args) >= 2 and isinstance(
+                                call.args[1], ast.Name) and \
+                            call.args[1].id == overlay and isinstance(
+                                call.args[0], ast.Call) and \
+                            'os.path.join' in prog.resolve_call(
+                                call.args[0], L):
+                        ok = True
+        if not comps:
+            raise AnalysisError('list_dir builds its result in an '
+                                'unrecognised way')
+        if ok:
+            rc.ok({'filter': 'exists(join(dir_, name), created_files)',
+                   'form': 'comprehension'}, key=key)
+        else:
+            rc.violation('listing-unfiltered | ' + L.qualname,
+                         'list_dir can list a name without having asked the '
+                         'virtual exists(join(dir, name), overlay)',
+                         ctx.prog.loc(L, comps[0]), key=key)
 
     def kfact(lab, pol, names, need_overlay):
         if not (isinstance(lab, tuple) and len(lab) == 4 and lab[0] == pol):
